@@ -87,6 +87,8 @@ func checkC15(c *Ctx) Meta {
 	checkC15Accum(c)
 	c.Rule("C15-GUARD", "a configuration request touches the keeper only after it has won the `configuring` flag: in every Configure* entry point no store to a keeper field and no indexing/creation step is reachable unless the compare-and-swap on `configuring` succeeded, so a request refused as concurrent changes nothing; capacity arithmetic on unsigned sizes cannot wrap (no a-b without a guard b<=a)", 6)
 	checkC15Guard(c)
+	checkIndexFromRequestedDirs(c, "C15-REUSE")
+	checkNoAppendOntoLivePrefix(c, "C15-ACCUM")
 
 	pkgS := "poc/engine/spacekeeper/capacity"
 	sk := "(*" + pkgCapacity + ".SpaceKeeper)."
@@ -698,6 +700,58 @@ func checkC15Accum(c *Ctx) {
 	}
 }
 
+// checkIndexFromRequestedDirs: a function that both sets the keeper's directories and rebuilds the
+// index rebuilds it from the directories it has just set: the store to dbDirs dominates the call of
+// generateInitialIndex (which scans sk.dbDirs). Rebuilding first indexes the old directories, so spaces
+// already present in a newly requested directory are not found and a complete new set is created beside them.
+func checkIndexFromRequestedDirs(c *Ctx, rule string) {
+	n := 0
+	var fns []*ssa.Function
+	for fn := range c.AllFuncs {
+		if pkgOf(fn) == pkgCapacity {
+			fns = append(fns, fn)
+		}
+	}
+	sort.Slice(fns, func(i, j int) bool { return FuncName(fns[i]) < FuncName(fns[j]) })
+	for _, f := range fns {
+		var stores []ssa.Instruction
+		for _, a := range fieldAccesses(f) {
+			if a.Kind == "store" && a.Type == pkgCapacity+".SpaceKeeper" && a.Field == "dbDirs" && !isFreshObject(a.Base) {
+				stores = append(stores, a.In)
+			}
+		}
+		// sk.generateInitialIndex is a function-typed field (set per database type): the rebuild is a call
+		// through that field
+		var gens []*ssa.Call
+		allInstrs(f, func(in ssa.Instruction) {
+			if cl, ok := in.(*ssa.Call); ok && isFieldFuncCall(cl, pkgCapacity+".SpaceKeeper", "generateInitialIndex") {
+				gens = append(gens, cl)
+			}
+		})
+		if len(stores) == 0 || len(gens) == 0 {
+			continue
+		}
+		for i, g := range gens {
+			n++
+			key := fmt.Sprintf("%s:index-rebuilt-from-the-directories-just-set#%d", f.Name(), i+1)
+			dom := false
+			for _, st := range stores {
+				if instrDominates(st, g) {
+					dom = true
+				}
+			}
+			if dom {
+				c.OK(rule, key, c.Pos(g.Pos()), "sk.dbDirs is set before generateInitialIndex scans it")
+			} else {
+				c.Bad(rule, key, c.Pos(g.Pos()), "the index is rebuilt before the requested directories are published in sk.dbDirs: existing spaces of a newly requested directory are not indexed, a second complete set is created beside them, and after a restart the selection differs")
+			}
+		}
+	}
+	if n == 0 {
+		c.Bad(rule, "anchor:dbDirs-then-index", "", "reason=anchor-missing: no function both sets sk.dbDirs and calls generateInitialIndex")
+	}
+}
+
 // checkC15Guard: C15-GUARD.
 func checkC15Guard(c *Ctx) {
 	rule := "C15-GUARD"
@@ -729,6 +783,19 @@ func checkC15Guard(c *Ctx) {
 				}
 			}
 			allInstrs(g, func(in ssa.Instruction) {
+				// the flag itself: releasing it (directly or by registering a deferred release) is an effect too —
+				// a refused request that clears the flag lets a third request in beside the one still running
+				if ci, isCI := in.(ssa.CallInstruction); isCI && ci != ssa.CallInstruction(cas) {
+					id := calleeID(in)
+					if (strings.HasPrefix(id, "sync/atomic.Store") || strings.HasPrefix(id, "sync/atomic.Swap") || strings.HasPrefix(id, "sync/atomic.Add")) && len(ci.Common().Args) > 0 {
+						if _, fld, _, isF := fieldOfAddr(ci.Common().Args[0]); isF && fld == "configuring" {
+							effects = append(effects, in)
+						}
+					}
+				}
+				if cl, isC := in.(*ssa.Call); isC && isFieldFuncCall(cl, pkgCapacity+".SpaceKeeper", "generateInitialIndex") {
+					effects = append(effects, in) // the index rebuild, called through the function-typed field
+				}
 				if callee := staticCallee(in); callee != nil && pkgOf(callee) == pkgCapacity {
 					n := callee.Name()
 					if n == "generateInitialIndex" || n == "applyConfiguredWorkSpaces" || strings.HasPrefix(n, "generateFill") || n == "upgradeMassDBFile" || n == "prepareDirs" {
@@ -801,5 +868,80 @@ func checkC15Guard(c *Ctx) {
 		} else {
 			c.OK(rule, key, c.Pos(f.Pos()), "the capacity test adds (free + plotted < requested); no unguarded unsigned subtraction")
 		}
+	}
+}
+
+
+// isFieldFuncCall: a dynamic call of the function stored in field `field` of type `typ`.
+func isFieldFuncCall(cl *ssa.Call, typ, field string) bool {
+	if cl.Call.IsInvoke() || cl.Call.StaticCallee() != nil {
+		return false
+	}
+	t, f, _, ok := fieldOfValue(cl.Call.Value)
+	return ok && t == typ && f == field
+}
+
+// checkNoAppendOntoLivePrefix: `append(s[:i], v)` writes v into s's backing array at index i (the
+// prefix has spare capacity: the rest of s). If s[i:] is read afterwards — the classic one-line
+// "insert" `append(append(s[:i], v), s[i:]...)` — the element that was at i has already been
+// overwritten: one space is lost from the per-directory list and another appears twice, which corrupts
+// the selection found again after a restart and the free-space sum.
+func checkNoAppendOntoLivePrefix(c *Ctx, rule string) {
+	n := 0
+	var bad []string
+	for fn := range c.AllFuncs {
+		if pkgOf(fn) != pkgCapacity {
+			continue
+		}
+		fn := fn
+		allInstrs(fn, func(in ssa.Instruction) {
+			cl, ok := in.(*ssa.Call)
+			if !ok {
+				return
+			}
+			b, isB := cl.Call.Value.(*ssa.Builtin)
+			if !isB || b.Name() != "append" || len(cl.Call.Args) == 0 {
+				return
+			}
+			n++
+			pre, isS := cl.Call.Args[0].(*ssa.Slice)
+			if !isS || pre.High == nil || pre.Max != nil {
+				return
+			}
+			base := accessPath(pre.X)
+			if base == "" {
+				return
+			}
+			// a later read of the same slice from the same index on
+			r := reach(fn, cl, nil, nil)
+			allInstrs(fn, func(i2 ssa.Instruction) {
+				suf, isS2 := i2.(*ssa.Slice)
+				if !isS2 || suf.Low == nil || accessPath(suf.X) != base {
+					return
+				}
+				if strip(suf.Low) != strip(pre.High) {
+					return
+				}
+				// evaluated after the append (Go evaluates the inner append before the outer call's operands are used)
+				used := false
+				if refs := suf.Referrers(); refs != nil {
+					for _, u := range *refs {
+						if r(u) || u == ssa.Instruction(cl) {
+							used = true
+						}
+					}
+				}
+				if used || r(suf) {
+					bad = append(bad, fn.Name()+": append onto "+base+"[:i] at "+c.Pos(cl.Pos())+" while "+base+"[i:] is still read")
+				}
+			})
+		})
+	}
+	sort.Strings(bad)
+	key := "no-append-onto-a-live-prefix"
+	if len(bad) > 0 {
+		c.Bad(rule, key, "", strings.Join(bad, "; ")+": the append overwrites element i in the shared backing array before the tail is copied — one indexed space is lost and another listed twice")
+	} else {
+		c.OK(rule, key, "", fmt.Sprintf("%d append calls in the keeper, none onto a prefix whose tail is read afterwards", n))
 	}
 }
